@@ -466,6 +466,37 @@ def _monitor(plog):
     return fails
 
 
+def o_c04_close_answered(scn, obs, runner):
+    """A device CLOSE that a shell-type operation read off the transport for its own, established stream is answered with a CLOSE (clean
+    links only; the operation's reader expects exactly WRTE or CLSE once the stream is open, so a consumed CLSE is one it was waiting for)."""
+    fails = []
+    prev_lid = scn.get("preset", {}).get("lid", 0)
+    prev_in = {}
+    for i, (op, o) in enumerate(zip(scn["ops"], obs)):
+        lids = set(lids_of_op(prev_lid, o["lid"]))
+        prev_lid = o["lid"]
+        ci = o.get("conn", -1)
+        lo = prev_in.get(ci, 0) if op["op"] != "connect" else 0
+        hi = o.get("inoff", 0)
+        prev_in[ci] = hi
+        if op["op"] not in ("shell", "exec_out", "streaming_shell", "root") or o["res"] == "err Hang" or not (0 <= ci < len(runner.link.used)):
+            continue
+        c = runner.link.used[ci]
+        if c.env.get("faults") or c.env.get("ofrags") or getattr(c.sim, "corrupted", None) is not None or c.sim.malformed is not None:
+            continue
+        opened = set()
+        for cmd, a0, a1 in _packets_in(c, lo, hi):
+            if a1 not in lids:
+                continue
+            if cmd == b"OKAY":
+                opened.add(a1)
+            elif cmd == b"CLSE" and a1 in opened:
+                st = c.sim.streams.get(a1)
+                if st is not None and (a0 == st.remote or a0 == 0) and not any(w == "host" and k == b"CLSE" and x0 == a1 for w, k, x0, x1, d in c.sim.log):
+                    fails.append(dict(op=i, why="%s read the device's CLOSE of its stream %d and never answered it (result %s)" % (op["op"], a1, o["res"][:40])))
+    return fails
+
+
 def o_c04_okays(scn, obs, runner):
     """each device WRITE delivered to the caller is acknowledged with exactly one OKAY (checked when every op succeeded)."""
     fails = []
